@@ -16,7 +16,8 @@ RULE = ("every frame the library writes to the (fake) socket during: lifecycle h
         "re-opens; generic messages with request data of EVERY length 0..600 and random lengths to 3990 over connected / UCMM / Unconnected "
         "Send; Logix uploads, multi-service / fragmented / read-modify-write traffic on ten controller configurations - is parsed by the "
         "strict encapsulation + common-packet-format parser of the reference target: header length field = bytes following, known command, "
-        "session handle = the one the target granted (0 only before registration), status 0, options 0, exactly two items with exact item "
+        "session handle = the one the target granted (0 only before registration - also for ListIdentity, once the client has read the grant; "
+        "handles and connection ids now and then from the ends of the 32-bit range: 0, 1, 0x80000000, 0xFFFFFFFF), status 0, options 0, exactly two items with exact item "
         "lengths, null address for SendRRData, connection address carrying the target's O->T id and sequence-count-first data for "
         "SendUnitData; three long-lived connections (CIP generic messages, SLC reads, Micro800 reads) issue > 66 000 connected messages each so "
         "frames with every 16-bit sequence count and the wrap are observed; additionally each OS-level send() call must be exactly one frame. distinct = (command, request kind, payload length "
